@@ -65,6 +65,19 @@ pub fn hex(b: &[u8]) -> String {
 pub fn unhex(s: &str) -> Vec<u8> {
     if s == "-" {
         vec![]
+    } else if let Some(d) = s.strip_prefix("rep:") {
+        // `rep:<len>:<hex prefix>`: a byte string of `len` bytes, the prefix followed by the repeating pattern i % 251
+        // (descriptor for messages of many megabytes that would not fit an op line)
+        let mut it = d.split(':');
+        let len: usize = it.next().unwrap().parse().expect("bad rep length");
+        let mut v = hex::decode(it.next().unwrap_or("")).expect("bad hex in op");
+        let mut i = v.len();
+        while v.len() < len {
+            v.push((i % 251) as u8);
+            i += 1;
+        }
+        v.truncate(len);
+        v
     } else {
         hex::decode(s).expect("bad hex in op")
     }
